@@ -54,6 +54,14 @@ TARGETS = [
     ("calcDirection", "xrspatial/proximity.py", "_calc_direction", dict(x1="num", x2="num", y1="num", y2="num")),
     # the red-black status tree of viewshed.py: tree_vals is (n, 8) numeric, tree_nodes is (n, 4) integer; the
     # NIL node is index -1 = the last row (numba's negative index wraps; ILang's normIdx models it)
+    ("meanNumpy", "xrspatial/focal.py", "_mean_numpy", dict(data="f2", excludes="f1")),
+    ("applyMean", "xrspatial/focal.py", "_apply_numpy", dict(data="f2", kernel="f2", func="fn:_calc_mean")),
+    ("applySum", "xrspatial/focal.py", "_apply_numpy", dict(data="f2", kernel="f2", func="fn:_calc_sum")),
+    ("applyMin", "xrspatial/focal.py", "_apply_numpy", dict(data="f2", kernel="f2", func="fn:_calc_min")),
+    ("applyMax", "xrspatial/focal.py", "_apply_numpy", dict(data="f2", kernel="f2", func="fn:_calc_max")),
+    ("applyRange", "xrspatial/focal.py", "_apply_numpy", dict(data="f2", kernel="f2", func="fn:_calc_range")),
+    ("applyStd", "xrspatial/focal.py", "_apply_numpy", dict(data="f2", kernel="f2", func="fn:_calc_std")),
+    ("applyVar", "xrspatial/focal.py", "_apply_numpy", dict(data="f2", kernel="f2", func="fn:_calc_var")),
     ("areaConnectivity", "xrspatial/zonal.py", "_area_connectivity", dict(data="f2", n="int")),
     ("vsFindValueMin", "xrspatial/viewshed.py", "_find_value_min_value", dict(tree_vals="f2", node_id="int")),
     ("vsTreeMinimum", "xrspatial/viewshed.py", "_tree_minimum", dict(tree_nodes="i2", x="int")),
@@ -71,6 +79,9 @@ TARGETS = [
 # functions that stay calls: name -> (number of numeric args, number of trailing integer args)
 EXTERNAL = {"_distance": (4, 1)}     # proximity._distance(x1, x2, y1, y2, metric)
 EXTERNAL_IN = {"xrspatial/proximity.py"}
+# NaN-ignoring whole-array reductions
+RED = {"np.nansum": "nansum", "np.nanmean": "nanmean", "np.nanmin": "nanmin", "np.nanmax": "nanmax",
+       "np.nanvar": "nanvar", "np.nanstd": "nanstd"}
 
 ARR = {"f1": ("F", 1), "f2": ("F", 2), "i1": ("I", 1), "i2": ("I", 2)}
 
@@ -239,7 +250,12 @@ class Fn:
                 if len(s.targets) != 1:
                     raise Untranslatable("chained assignment")
                 t = s.targets[0]
-                if isinstance(t, ast.Name) and isinstance(s.value, ast.Constant) and s.value.value is None:
+                if isinstance(t, ast.Name) and self.is_slice_view(s.value):
+                    self.views = getattr(self, "views", {})
+                    if t.id in self.views and src(self.views[t.id]) != src(s.value):
+                        raise Untranslatable("slice view bound twice: " + t.id)
+                    self.views[t.id] = s.value
+                elif isinstance(t, ast.Name) and isinstance(s.value, ast.Constant) and s.value.value is None:
                     self.optional.add(t.id)
                 elif isinstance(t, ast.Name):
                     self.bind(t.id, self.sort(s.value, alloc_ok=True))
@@ -433,6 +449,10 @@ class Fn:
                 return "int"
             if fn in ("int", "np.int64", "np.int32") and len(e.args) == 1 and self.sort(e.args[0]) in ("int", "bool"):
                 return "int"
+            if fn == "int" and len(e.args) == 1 and self.int_quotient(e.args[0]):
+                return "int"
+            if fn in RED and len(e.args) == 1 and not e.keywords:
+                return "num"
             if alloc_ok:
                 ty = self.alloc_sort(e)
                 if ty:
@@ -452,6 +472,16 @@ class Fn:
         if isinstance(e, ast.IfExp):
             return join(self.sort(e.body), self.sort(e.orelse))
         raise Untranslatable("expression " + src(e))
+
+    def is_slice_view(self, a):
+        return (isinstance(a, ast.Subscript) and isinstance(a.value, ast.Name) and self.types.get(a.value.id) == "f2"
+                and isinstance(a.slice, ast.Tuple) and len(a.slice.elts) == 2
+                and all(isinstance(x, ast.Slice) for x in a.slice.elts))
+
+    def int_quotient(self, e):
+        """`a / b` with integer operands (so that `int(a / b)` is the truncated quotient)"""
+        return (isinstance(e, ast.BinOp) and isinstance(e.op, ast.Div)
+                and self.sort(e.left) == "int" and self.sort(e.right) == "int")
 
     def dtype_kind(self, call):
         for kw in call.keywords:
@@ -598,6 +628,10 @@ class Fn:
                 for a in e.args[1:]:
                     out = f"(.bin .{fn} {out} {self.ie(a)})"
                 return out
+            if fn == "int" and self.int_quotient(e.args[0]):
+                # exact as long as the operands are far below 2^53 (the float quotient is then never rounded
+                # across an integer)
+                return f"(.bin .tdiv {self.ie(e.args[0].left)} {self.ie(e.args[0].right)})"
             if fn in ("int", "np.int64", "np.int32"):
                 return self.ie(e.args[0])
             if fn == "np.sum" and len(e.args) == 1 and isinstance(e.args[0], ast.Name) \
@@ -680,6 +714,8 @@ class Fn:
             fn = src(e.func)
             if fn in ("np.sqrt", "sqrt", "math.sqrt"):
                 return f"(.un .sqrt {self.fe(e.args[0])})"
+            if fn in RED and len(e.args) == 1 and not e.keywords:
+                return f"(.red .{RED[fn]} {lstr(self.red_operand(e.args[0]))})"
             if fn in ("abs", "np.abs"):
                 return f"(.un .abs {self.fe(e.args[0])})"
             if fn == "np.arctan2" and len(e.args) == 2:
@@ -749,6 +785,39 @@ class Fn:
             return f"(.cmpF .ne {self.fe(e)} (.lit 0 1))"
         raise Untranslatable("condition " + src(e))
 
+    def red_operand(self, a):
+        """the array a reduction runs over: a numeric array, or a 2-D slice `m[r0:r1, c0:c1]` (directly or through
+        a name bound to it), which is first copied into a scratch array"""
+        if isinstance(a, ast.Name) and a.id in getattr(self, "views", {}):
+            if getattr(self, "view_fresh", None) != a.id:
+                raise Untranslatable("slice view " + a.id + " used away from its binding")
+            a = self.views[a.id]
+        if isinstance(a, ast.Name) and self.types.get(a.id) in ("f1", "f2"):
+            return self.arr_name(a.id)
+        if isinstance(a, ast.Subscript) and isinstance(a.value, ast.Name) and self.types.get(a.value.id) == "f2" \
+                and isinstance(a.slice, ast.Tuple) and len(a.slice.elts) == 2 \
+                and all(isinstance(x, ast.Slice) and x.step is None and x.lower is not None and x.upper is not None
+                        for x in a.slice.elts):
+            base = self.arr_name(a.value.id)
+            self.tmp += 1
+            t = self.v(f"slice{self.tmp}$")
+            (r, c) = a.slice.elts
+            r0, r1, c0, c1 = self.ie(r.lower), self.ie(r.upper), self.ie(c.lower), self.ie(c.upper)
+            # numpy clamps slice bounds to the array; the targets only use bounds that are already clamped, which
+            # the bounds check of the copy loop enforces (an out-of-range bound stops the program)
+            self.pre.append(f"(.setI {lstr(t + 'r0')} {r0})")
+            self.pre.append(f"(.setI {lstr(t + 'c0')} {c0})")
+            self.pre.append(f"(.allocF {lstr(t + 'a')} [(.bin .max (.bin .sub {r1} (.var {lstr(t + 'r0')})) (.lit 0)), "
+                            f"(.bin .max (.bin .sub {c1} (.var {lstr(t + 'c0')})) (.lit 0))] .nan)")
+            self.pre.append(
+                f"(.forRange {lstr(t + 'i')} (.lit 0) (.dim {lstr(t + 'a')} 0) (.lit 1)\n"
+                f"  (.forRange {lstr(t + 'j')} (.lit 0) (.dim {lstr(t + 'a')} 1) (.lit 1)\n"
+                f"    (.stF2 {lstr(t + 'a')} (.var {lstr(t + 'i')}) (.var {lstr(t + 'j')}) "
+                f"(.ld2 {lstr(base)} (.bin .add (.var {lstr(t + 'r0')}) (.var {lstr(t + 'i')})) "
+                f"(.bin .add (.var {lstr(t + 'c0')}) (.var {lstr(t + 'j')}))))))")
+            return t + "a"
+        raise Untranslatable("reduction over " + src(a))
+
     def compare(self, a, op, b):
         if isinstance(op, (ast.Is, ast.IsNot)):
             if isinstance(a, ast.Name) and a.id in self.optional and isinstance(b, ast.Constant) and b.value is None:
@@ -812,8 +881,17 @@ class Fn:
     # ---------------------------------------------------------------- statements
     def block(self, stmts):
         out = []
+        saved = getattr(self, "view_fresh", None)
+        self.view_fresh = None
         for s in stmts:
             out.extend(self.stmt(s))
+            # a slice view may only be used by the statement that directly follows its binding
+            if isinstance(s, ast.Assign) and len(s.targets) == 1 and isinstance(s.targets[0], ast.Name) \
+                    and s.targets[0].id in getattr(self, "views", {}):
+                self.view_fresh = s.targets[0].id
+            else:
+                self.view_fresh = None
+        self.view_fresh = saved
         return seq(out)
 
     def with_pre(self, fn):
@@ -868,6 +946,12 @@ class Fn:
                     self.inline_value(s.value)
                     return []
                 return self.with_pre(go)
+            if isinstance(s.value, ast.Call) and isinstance(s.value.func, ast.Attribute) and s.value.func.attr == "fill" \
+                    and isinstance(s.value.func.value, ast.Name) and self.types.get(s.value.func.value.id) in ARR \
+                    and len(s.value.args) == 1:
+                fill = ast.Assign(targets=[ast.Subscript(value=s.value.func.value, slice=ast.Slice(lower=None, upper=None, step=None),
+                                                         ctx=ast.Store())], value=s.value.args[0])
+                return self.with_pre(lambda: self.assign(fill))
             if isinstance(s.value, ast.Call) and src(s.value.func) == "print":
                 self.report.setdefault("dropped", []).append("print")
                 return []
@@ -973,6 +1057,10 @@ class Fn:
                     raise Untranslatable("simultaneous assignment " + src(s))
                 return [self.assign_text(self.v(e.id), self.types[e.id], v) for e, v in zip(t.elts, value.elts)]
             raise Untranslatable("tuple assignment " + src(s))
+        if isinstance(t, ast.Name) and t.id in getattr(self, "views", {}):
+            # a slice view is only a name for the slice: the reduction that uses it copies the cells; that is the
+            # same thing because the only permitted use is in the statement that directly follows (see `block`)
+            return []
         if isinstance(t, ast.Name):
             if isinstance(value, ast.Constant) and value.value is None and t.id in self.optional:
                 return [f"(.setB {lstr(self.v(t.id + '$some'))} .ff)"]
@@ -1123,6 +1211,26 @@ TY_LEAN = {"int": ".int", "num": ".num", "bool": ".bool", "f1": "(.arrF 1)", "f2
            "i1": "(.arrI 1)", "i2": "(.arrI 2)"}
 
 
+def bind_functions(func, fbinds):
+    """a copy of `func` in which the function-valued parameters are replaced by the module functions they are
+    bound to (`func(kernel_values)` -> `_calc_mean(kernel_values)`) and dropped from the signature"""
+    import copy
+    f = copy.deepcopy(func)
+
+    class T(ast.NodeTransformer):
+        def visit_Call(self, n):
+            self.generic_visit(n)
+            if isinstance(n.func, ast.Name) and n.func.id in fbinds:
+                n.func = ast.Name(id=fbinds[n.func.id], ctx=ast.Load())
+            return n
+    T().visit(f)
+    for n in ast.walk(f):
+        if isinstance(n, ast.Name) and n.id in fbinds:
+            raise Untranslatable("function-valued parameter used other than in a call: " + n.id)
+    f.args.args = [a for a in f.args.args if a.arg not in fbinds]
+    return f
+
+
 def translate(mods, repo, lean_name, rel, fname, ptypes):
     rep = dict(ok=False, qual=f"{rel}:{fname}")
     Fn.counter[0] = 0          # inlined callees are numbered per program
@@ -1136,6 +1244,13 @@ def translate(mods, repo, lean_name, rel, fname, ptypes):
         real_params = [a.arg for a in func.args.args]
         if real_params != list(ptypes)[:len(real_params)]:
             raise Untranslatable(f"parameters are {real_params}, declared {list(ptypes)}")
+        fbinds = {k: v[3:] for k, v in ptypes.items() if str(v).startswith("fn:")}
+        if fbinds:
+            for k, target in fbinds.items():
+                if not mod.jitted(target):
+                    raise Untranslatable(f"{k} is bound to {target}, which is not a jitted function of the module")
+            func = bind_functions(func, fbinds)
+            ptypes = {k: v for k, v in ptypes.items() if k not in fbinds}
         fn = Fn(mod, func, ptypes)
         body = fn.block(body_of(func))
         rets = []
@@ -1147,6 +1262,7 @@ def translate(mods, repo, lean_name, rel, fname, ptypes):
             else:
                 rets.append((f"ret{k}", ty))
         params = ", ".join(f"({lstr(p)}, {TY_LEAN[t]})" for p, t in ptypes.items())
+        rep["fbinds"] = fbinds
         retl = ", ".join(f"({lstr(n)}, {TY_LEAN[t]})" for n, t in rets)
         text = (f"/-- `{fname}` ({rel}:{func.lineno}) -/\n"
                 f"def {lean_name} : Prog :=\n  {{ name := {lstr(fname)}\n    params := [{params}]\n"
